@@ -231,3 +231,35 @@ harness('h_io::c16_write_fail_ipv6_exts', ['C16'], 'bounded (one concrete chain:
 harness('h_io::c16_write_fail_ip_headers', ['C16'], 'bounded (one concrete IPv4 header, no exts)', 'IpHeaders::write writer fault at k in 0..=20', tier='quick', bound='one concrete IPv4 header, no exts', timeout=300)
 harness('h_io::c16_slice_space_builder_udp', ['C16', 'C10'], 'bounded (eth+ipv4+udp concrete, payload len 0..=4)', 'PacketBuilder::write_to_slice: Space(real len), canaries, == io::Write output', tier='thorough', bound='eth+ipv4+udp concrete, payload len 0..=4', timeout=1180, heavy=True)
 harness('h_io::c16_write_fail_builder_udp', ['C16', 'C10'], 'bounded (eth+ipv4+udp concrete, payload len 0..=4)', 'PacketBuilder::write writer fault at k: BuildWriteError::Io, prefix over 4 pieces', tier='thorough', bound='eth+ipv4+udp concrete, payload len 0..=4', timeout=1665, heavy=True)
+harness('h_packet::c06_ip_variants_v4_short_lax', ['C06'], 'bounded (all inputs 1..=19 B, version 4)', 'LaxIpSlice vs LaxIpv4Slice on inputs shorter than the minimal IPv4 header (finding D6-lax lives here)', tier='quick', bound='N=19', timeout=600)
+
+# ---- C14 setters (agent k-setters); all "true maxima" derived in the harness from field widths -----------------------------------
+harness('h_setters::c14_ipv4_set_payload_len', ['C14'], 'complete (all usize x all IPv4 headers, option len 0..40)', 'Ipv4Header::set_payload_len/max_payload_len: Ok <=> len <= 65535-20-opts; total_len + bytes 2..4 exact; err fields; unchanged on Err', tier='quick', bound='none', timeout=300, heavy=False)
+harness('h_setters::c14_ipv4_new', ['C14'], 'complete (all u16 payload_len x all args)', 'Ipv4Header::new: Ok <=> payload_len <= 65515; total_len = 20+len; defaults; err fields', tier='quick', bound='none', timeout=300, heavy=False)
+harness('h_setters::c14_ipv4_options_try_from', ['C14'], 'complete (slice len 0..=48, symbolic content)', 'Ipv4Options::try_from: Ok <=> len%4==0 && len<=40; content kept; IHL on the wire', tier='quick', bound='slice <= 48 B (rest: _huge)', timeout=300, heavy=False)
+harness('h_setters::c14_ipv4_options_try_from_huge', ['C14'], 'complete (all lens 41..=isize::MAX, fabricated slice)', 'Ipv4Options::try_from rejects every longer slice with bad_len, reads nothing', tier='quick', bound='none', timeout=300, heavy=False)
+harness('h_setters::c14_ipv6_set_payload_length', ['C14'], 'complete (all usize x all IPv6 headers)', 'Ipv6Header::set_payload_length: Ok <=> len <= 65535; field + bytes 4..6; err fields; unchanged on Err', tier='quick', bound='none', timeout=300, heavy=False)
+harness('h_setters::c14_udp_without_ipv4_checksum', ['C14'], 'complete (all usize x all ports)', 'UdpHeader::without_ipv4_checksum: Ok <=> len <= 65527; length = 8+len on the wire; err fields', tier='quick', bound='none', timeout=300, heavy=False)
+harness('h_setters::c14_macsec_short_len_from_len', ['C14'], 'complete (all usize)', 'MacsecShortLen::from_len: len<=63 stored exactly, else 0 (unknown)', tier='quick', bound='none', timeout=300, heavy=False)
+harness('h_setters::c14_macsec_set_payload_len', ['C14'], 'complete (all usize x all MACsec headers, 4 ptypes)', 'MacsecHeader::set_payload_len: SL = len (+2 if Unmodified) if it fits 6 bits else 0; byte 1 on the wire; expected_payload_len decodes; rest unchanged', tier='quick', bound='none', timeout=300, heavy=False)
+harness('h_setters::c14_ah_new', ['C14'], 'complete (ICV len 0..=1032, symbolic content)', 'IpAuthHeader::new: Ok <=> len%4==0 && len<=1016; ICV/len/payload-len byte exact; truthful IcvLenError', tier='quick', bound='ICV <= 1032 B (rest: c14_ah_huge)', timeout=300, heavy=False)
+harness('h_setters::c14_ah_set_raw_icv', ['C14'], 'complete (every header ICV len x new ICV len 0..=1032)', 'IpAuthHeader::set_raw_icv: same rule; header unchanged on Err', tier='quick', bound='ICV <= 1032 B (rest: c14_ah_huge)', timeout=300, heavy=False)
+harness('h_setters::c14_ah_huge', ['C14'], 'complete (all lens 1017..=isize::MAX, fabricated slice)', 'IpAuthHeader::new/set_raw_icv reject every longer ICV, read nothing, header unchanged', tier='quick', bound='none', timeout=300, heavy=False)
+harness('h_setters::c14_v6ext_new_raw', ['C14'], 'complete (payload len 0..=2064, symbolic content)', 'Ipv6RawExtHeader::new_raw: Ok <=> (len+2)%8==0 && 6<=len<=2046; payload + hdr-ext-len byte exact; truthful ExtPayloadLenError', tier='quick', bound='payload <= 2064 B (rest: c14_v6ext_huge)', timeout=330, heavy=False)
+harness('h_setters::c14_v6ext_set_payload', ['C14'], 'complete (every header len x new payload len 0..=2064)', 'Ipv6RawExtHeader::set_payload: same rule; header unchanged on Err', tier='thorough', bound='payload <= 2064 B (rest: c14_v6ext_huge)', timeout=576, heavy=False)
+harness('h_setters::c14_v6ext_huge', ['C14'], 'complete (all lens 2047..=isize::MAX, fabricated slice)', 'Ipv6RawExtHeader::new_raw/set_payload reject every longer payload, read nothing, header unchanged', tier='quick', bound='none', timeout=300, heavy=False)
+harness('h_setters::c14_ipheaders_v4_set_payload_len', ['C14'], 'complete (all usize x all IPv4 headers x AH absent/any ICV len)', 'IpHeaders::set_payload_len v4: Ok <=> len <= 65535-hdr-ext; total_len exact; Ipv4PayloadLength; unchanged on Err', tier='thorough', bound='none', timeout=462, heavy=False)
+harness('h_setters::c14_ipheaders_v6_set_payload_len', ['C14'], 'complete (all usize x all IPv6 headers x subsets of {hop-by-hop any len, fragment})', 'IpHeaders::set_payload_len v6: Ok <=> len <= 65535-ext; payload_length exact; Ipv6PayloadLength; unchanged on Err', tier='quick', bound='2 of 6 ext kinds (all: _all_exts)', timeout=330, heavy=False)
+harness('h_setters::c14_ipheaders_v6_set_payload_len_all_exts', ['C14'], 'complete (all usize x every subset of all 6 ext headers, every length)', 'as above with all extension headers', tier='thorough', bound='none', timeout=1188, heavy=True)
+harness('h_setters::c14_tcp_options_try_from_slice', ['C14'], 'complete (slice len 0..=48, symbolic content)', 'TcpOptions::try_from_slice/TryFrom: Ok <=> len<=40; padded to x4 with 0; data offset on the wire; NotEnoughSpace(len)', tier='quick', bound='slice <= 48 B (rest: _huge)', timeout=300, heavy=False)
+harness('h_setters::c14_tcp_options_try_from_slice_huge', ['C14'], 'complete (all lens 41..=isize::MAX, fabricated slice)', 'TcpOptions::try_from_slice rejects every longer slice, reads nothing', tier='quick', bound='none', timeout=300, heavy=False)
+harness('h_setters::c14_arp_new', ['C14'], 'complete (4 independent slices len 0..=258, symbolic content)', 'ArpPacket::new: Ok <=> pairwise equal lens <= 255; sizes + 4 addresses exact; truthful ArpNewError', tier='quick', bound='addr <= 258 B (rest: c14_arp_huge)', timeout=342, heavy=False)
+harness('h_setters::c14_arp_new_wire_eth_ipv4', ['C14'], 'bounded ((hw,proto) lens (6,4),(0,0), symbolic content)', 'ArpPacket::to_bytes: bytes 4,5 = lens, packet_len, sha/spa/tha/tpa order', tier='thorough', bound='2 length pairs', timeout=390, heavy=False)
+harness('h_setters::c14_arp_new_wire_max', ['C14'], 'bounded ((hw,proto) lens (255,255), symbolic content)', 'same at the field maximum (1028 B == MAX_LEN)', tier='thorough', bound='1 length pair', timeout=426, heavy=False)
+harness('h_setters::c14_arp_set_addrs', ['C14'], 'complete (packet sizes 0..=255 x new slices len 0..=258)', 'ArpPacket::set_hw_addrs/set_protocol_addrs: same rule; other kind untouched; unchanged on Err', tier='thorough', bound='addr <= 258 B (rest: c14_arp_huge)', timeout=654, heavy=False)
+harness('h_setters::c14_arp_huge', ['C14'], 'complete (any 4 lens <= isize::MAX with one > 255, fabricated slices)', 'ArpPacket::new/set_*: always Err, truthful, reads nothing, packet unchanged', tier='quick', bound='none', timeout=300, heavy=False)
+harness('h_setters::c14_tcp_calc_checksum_ipv4_guard', ['C14'], 'complete (all payload lens <= isize::MAX x all TCP headers; add_slice stubbed)', 'TcpHeader::calc_checksum_ipv4(_raw): Ok <=> len <= 65535-(20+opts); exact error', tier='quick', bound='none', timeout=300, heavy=False)
+harness('h_setters::c14_tcp_calc_checksum_ipv6_guard', ['C14'], 'complete (all payload lens <= isize::MAX x all TCP headers; add_slice stubbed)', 'TcpHeader::calc_checksum_ipv6(_raw): Ok <=> len <= 2^32-1-(20+opts); exact error', tier='quick', bound='none', timeout=300, heavy=False)
+harness('h_setters::c14_icmpv6_calc_checksum_guard', ['C14'], 'complete (all payload lens <= isize::MAX x 8 message types; add_slice stubbed)', 'Icmpv6Type::calc_checksum: Ok <=> len <= 2^32-1-8; exact error', tier='quick', bound='none', timeout=300, heavy=False)
+harness('h_setters::c14_udp_with_checksum_guard', ['C14'], 'complete (all payload lens <= isize::MAX; add_slice stubbed)', 'UdpHeader::with_ipv4_checksum/with_ipv6_checksum: Ok <=> len <= 65527; length = 8+len; exact error', tier='quick', bound='none', timeout=300, heavy=False)
+harness('h_setters::c14_udp_calc_checksum_guard', ['C14'], 'complete (all payload lens <= isize::MAX; add_slice stubbed)', 'UdpHeader::calc_checksum_ipv4/ipv6(_raw): Ok <=> len <= 65527 resp. 2^32-1-8; exact error', tier='quick', bound='none', timeout=300, heavy=False)
